@@ -211,12 +211,18 @@ def _original(case, ctx):
         from vmon.gen import c10_ds
 
         rnd = random.Random("c08gen/%s/%s/%s" % (case["kind"], case["i"], case["seed"]))
-        g = c10_ds.make(rnd, kind=case["kind"], rules=(case["i"] % 3 != 2), n_extra=rnd.choice([1, 2, 3]))
+        twin = case["i"] % 4 in (0, 1)
+        g = c10_ds.make(rnd, kind=case["kind"], rules=(case["i"] % 3 != 2) or twin, n_extra=rnd.choice([1, 2, 3]), twin=twin,
+                        naxes=rnd.choice([2, 2, 3]) if twin else None)
+        twin_axes = g["twin_axes"]
         with hooks.quiet():
             font, _, _ = varLib.build(g["ds"], optimize=bool(case["i"] % 2))
         font = corpus.open_bytes(corpus.save_bytes(font))
+        ndup = _shadowed_pair_subtable(font)
     order = corpus.fix_glyph_names(font)
     repairs = []
+    if case["src"] != "gen":
+        twin_axes, ndup = [], 0
     if "cmap" in font and len(order) > 1:
         corpus.add_pua(font)
     if "name" not in font:
@@ -239,7 +245,8 @@ def _original(case, ctx):
             "avar_segments": {t: dict(m) for t, m in font["avar"].segments.items()} if "avar" in font else {},
             "tables": sorted(font.keys()), "composites": _composites(font),
             "hvar_map": None, "mvar": None, "typo_ok": _typo_consistent(font),
-            "varc": "VARC" in font, "repairs": repairs, "phantom_var": _phantom_var(font), "lsb_not_xmin": _lsb_not_xmin(font)}
+            "varc": "VARC" in font, "repairs": repairs, "phantom_var": _phantom_var(font), "lsb_not_xmin": _lsb_not_xmin(font),
+            "twin_axes": twin_axes, "shadowed_pair_subtables": ndup}
     if "HVAR" in font:
         hv = font["HVAR"].table
         m = hv.AdvWidthMap.mapping if hv.AdvWidthMap else None
@@ -248,6 +255,31 @@ def _original(case, ctx):
         _orig_cache.clear()
     _orig_cache[key] = info
     return info
+
+
+def _shadowed_pair_subtable(font):
+    """Generated fonts: give every kerning lookup that starts with a PairPos format 1 subtable a second format 1
+    subtable repeating the same pairs with other values (what AFDKO-style 'exception + enumerated class' kerning or a
+    `subtable;` break produce).  OpenType: the first subtable that holds the pair wins, so the copies are shadowed."""
+    from copy import deepcopy
+
+    n = 0
+    if "GPOS" not in font:
+        return n
+    for lookup in font["GPOS"].table.LookupList.Lookup:
+        st = lookup.SubTable
+        if lookup.LookupType == 2 and st and st[0].Format == 1 and not (len(st) > 1 and st[1].Format == 1):
+            dup = deepcopy(st[0])
+            for ps in dup.PairSet:
+                for rec in ps.PairValueRecord:
+                    if rec.Value1 is not None:
+                        rec.Value1.XAdvance = (getattr(rec.Value1, "XAdvance", 0) or 0) + 111
+            if not (dup.ValueFormat1 & 0x0004):
+                continue
+            st.insert(1, dup)
+            lookup.SubTableCount = len(st)
+            n += 1
+    return n
 
 
 def _lsb_not_xmin(font):
@@ -317,8 +349,9 @@ def _rv(rnd, lo, hi):
     return min(hi, max(lo, v))
 
 
-def gen_limits(rnd, axes, k):
-    """axes: [(tag, min, default, max)] -> (limits dict for the API, kinds {tag: kind})"""
+def gen_limits(rnd, axes, k, keep=()):
+    """axes: [(tag, min, default, max)] -> (limits dict for the API, kinds {tag: kind}).
+    Axes in `keep` are left untouched or restricted to their full range (their normalised space stays as it is)."""
     lim, kinds = {}, {}
 
     def one(tag, lo, df, hi, choice):
@@ -383,7 +416,12 @@ def gen_limits(rnd, axes, k):
             c = rnd.choice(pins + ranges)
         else:
             c = rnd.choice(["keep", "keep"] + pins + ranges + ranges)
+        if tag in keep:
+            c = rnd.choice(["keep", "range-full"])
         one(tag, lo, df, hi, c)
+    if not lim and keep:
+        tag, lo, df, hi = next(a for a in axes if a[0] in keep)
+        one(tag, lo, df, hi, "range-full")
     if not lim:
         tag, lo, df, hi = rnd.choice(axes)
         one(tag, lo, df, hi, rnd.choice(["pin-random", "range-moved"]))
@@ -504,7 +542,7 @@ def run_case(case, ctx):
     if not axes:
         ctx.skip("no axes")
         return
-    lim, kinds = gen_limits(rnd, axes, case["k"])
+    lim, kinds = gen_limits(rnd, axes, case["k"], keep=info["twin_axes"] if case["k"] % 2 else ())
     eff = effective_limits(axes, lim)
     pinned = {t: v[1] for t, v in eff.items() if v[0] == v[2]}
     full = len(pinned) == len(axes)
@@ -829,7 +867,12 @@ def run_case(case, ctx):
                   "optimize": optimize, "updateFontNames": upd_names, "downgradeCFF2": downgrade, "locations": locs[:8],
                   "K_steps": steps, "handlers": dict(_cur["handlers"]), "rebaseTent_calls": _cur["rebase"],
                   "instanced_varstores": [{"table": s["table"], "regions_per_major": [len(m) for m in s["majors"]]} for s in _cur["ivs"]],
-                  "worst_observed": worst, "instance_tables": sorted(I.tags), "harness_repairs_of_original": info["repairs"]}
+                  "worst_observed": worst, "instance_tables": sorted(I.tags), "harness_repairs_of_original": info["repairs"],
+                  "twin_rule_axes": info["twin_axes"], "shadowed_pair_subtables": info["shadowed_pair_subtables"]}
+    if info["twin_axes"]:
+        ctx.note("gen:twin-feature-variation-rules")
+    if info["shadowed_pair_subtables"]:
+        ctx.note("gen:shadowed-format1-pair-subtable")
 
 
 def _featvar_diagnosis(info, O, axes, pinned, eff, inst_bytes):
